@@ -12,6 +12,7 @@ def bool? : String → Option Bool
 inductive Line where
   | op (o : Op)
   | gc (k : Nat)
+  | closeref (a b : Nat)
 
 def parse (l : String) : Option Line :=
   match Driver.words l with
@@ -31,6 +32,7 @@ def parse (l : String) : Option Line :=
   | ["close", t] => do pure (.op (.close (← t.toNat?)))
   | ["query", k] => do pure (.op (.query (← k.toNat?)))
   | ["gc", k] => do pure (.gc (← k.toNat?))
+  | ["closeref", a, b] => do pure (.closeref (← a.toNat?) (← b.toNat?))
   | _ => none
 
 def render : Out → String
@@ -96,6 +98,15 @@ def stepLine (s : State) (l : String) : State × String :=
   | some (.gc k) =>
     let s' := runFinalizers s s.leaked.length
     (s', s!"gc | {keyState s' k}")
+  | some (.closeref a b) =>
+    -- a Close racing with a Ref on the same rc: rc.dec is one critical section, so the
+    -- observable result is that of `close a` followed by `ref b`
+    let key := opKey s (.close a)
+    let (s1, o1) := step s (.close a)
+    let (s2, o2) := step s1 (.ref b)
+    match key with
+    | some k => (s2, s!"{render o1} {render o2} | {keyState s2 k}")
+    | none => (s2, s!"{render o1} {render o2}")
   | some (.op op) =>
     let key := opKey s op
     let (s', o) := step s op
